@@ -63,6 +63,8 @@ inductive Outcome
 /-- `XmlSerializer.render` with the native writer -/
 def render (env : Xs.Ns.NsEnv) (be : Xs.Bind.BEnv) (Γ : Xs.Bind.Ctx) (scfg : Xs.Bind.SerCfg)
     (wcfg : Xs.Writer.Cfg) (userMap : List (Xs.Ns.Pfx × Str)) (v : Xs.Bind.Val) : Outcome :=
+  -- the writer is constructed (and validates the prefix map) before the lazy generator runs
+  if !Xs.Writer.prefixesValid env (Xs.Ns.serializerNsMap userMap) then .writeError .xmlWriterError else
   match Xs.Bind.generate be Γ scfg v with
   | .error e => .genError e
   | .ok evs =>
